@@ -85,3 +85,12 @@ Print Assumptions C06_optimiser_always_returns.
 Theorem C06_transfers_bounded : stmt_transfers_bounded.
 Proof. exact transfers_bounded_thm. Qed.
 Print Assumptions C06_transfers_bounded.
+
+(** all together, with the optimiser inside the model: for every network loaded from a valid instance (no negative
+    dead-head distance) and a start solution as above there are fuel bounds such that along EVERY trajectory of the search
+    and for EVERY choice of the optimiser's minimiser the optimisation stage returns, the final alignment succeeds and the
+    result renders. The remaining oracles are the flow solver and the picks. *)
+From RS Require Import PipelineOptStmts PipelineOptFacts.
+Theorem C06_pipeline_with_modelled_optimiser_returns : stmt_pipeline_opt_never_crashes_loaded.
+Proof. exact pipeline_opt_never_crashes_loaded. Qed.
+Print Assumptions C06_pipeline_with_modelled_optimiser_returns.
